@@ -6,6 +6,7 @@ import (
 	"regexp"
 	"strings"
 	"unicode"
+	"unicode/utf8"
 
 	"github.com/go-playground/validator/v10"
 	"github.com/gopher-fleece/gleece/v2/definitions"
@@ -28,7 +29,7 @@ func validateStartsWithLetter(fl validator.FieldLevel) bool {
 	if field == "" {
 		return true // for empty validation, pass "required" tag too
 	}
-	firstChar := rune(field[0])
+	firstChar, _ := utf8.DecodeRuneInString(field)
 	return unicode.IsLetter(firstChar)
 }
 
